@@ -1085,7 +1085,7 @@ func runC01(e *Env) error {
 		"templates from the grammar text | {{ var }} | if | for | include | extends+block | a call of an unknown function (fails at render) | three kinds of syntax error; " +
 		"a template refers only to lower-numbered names (acyclic). Every Render is compared with (1) a fresh engine holding the same templates in this process, " +
 		"(2) for a sample, a pristine child process, (3) the Lean model run pool-free and with pools under LIFO / FIFO / seeded-random Get oracles. " +
-		"non-trivial = a render with non-empty output that follows at least one earlier parse or render; distinct by the operation list"
+		"plus attribute reads of 12 Go types met for the first time in every order of value/pointer and field/method (process-wide attribute cache; implementation-only). non-trivial = a render with non-empty output that follows at least one earlier parse or render; distinct by the operation list"
 	if e.Replay != "" {
 		return c01ReplayFile(e)
 	}
@@ -1177,6 +1177,8 @@ func runC01(e *Env) error {
 	}
 	r.Note(fmt.Sprintf("pristine-process comparisons left unused: %d", budget))
 	c01StopWorker()
+	// process-wide state that is not a pool: the attribute cache
+	c01AttrOrders(e)
 	return nil
 }
 
